@@ -612,6 +612,8 @@ async fn proto3(
                 }
                 m.ack()
             }
+            // (ProtocolMessage::ack() answers SUBSCRIBE / UNSUBSCRIBE with a disconnect: "not supported")
+            v3::ProtocolMessage::Unsubscribe(m) => m.ack(),
             m => m.ack(),
         }),
     }
